@@ -201,6 +201,11 @@ func probeSCION(p []byte) probeResult {
 	}
 	dstAddr := netlab.UDPAddr(scionSrvIP, scionPort)
 	sentSeq++
+	// a quarter of the probes (and their sentinels) arrive on the SCION end-host port 30041 of the listener's host,
+	// as they do behind routers that do not dispatch on the UDP destination port
+	if mix(uint64(sentSeq)*31+uint64(len(p)))%4 == 0 {
+		dstAddr = netlab.UDPAddr(scionSrvIP, 30041)
+	}
 	raw, ps := scionWrap(p, mix(uint64(sentSeq)+uint64(len(p))))
 	if len(raw) <= 9000 {
 		hop.WriteToUDP(raw, dstAddr)
@@ -400,7 +405,7 @@ var recGrid = ev.New("c09/grid", "enumeration of every first header byte (256: a
 
 func TestExhaustiveGrid(t *testing.T) { gridBody(t, recGrid, lengths) }
 
-var recGridS = ev.New("c09/grid-scion", "the c09/grid enumeration sent to the SCION listener instead: every probe is the UDP payload of a SCION packet (empty path, one-hop path, or 1..2-segment SCION paths of varying length at their last hop) from a harness end host, with or without extension headers that do not concern the time service (end-to-end option 253, padding, unknown options, hop-by-hop extension), sent from a 'previous hop' socket; lengths {0,1,47,48,49,52,75,76,77,100,1024,1300}. Same oracle on the unwrapped replies; in addition every reply must come from the listener's socket to the previous hop with ISD-AS, host and ports exchanged and a path whose type and bytes equal an independently computed reversal of the request's. Non-trivial / distinct as for c09/grid")
+var recGridS = ev.New("c09/grid-scion", "the c09/grid enumeration sent to the SCION listener instead: every probe is the UDP payload of a SCION packet (empty path, one-hop path, or 1..2-segment SCION paths of varying length at their last hop) from a harness end host, with or without extension headers that do not concern the time service (end-to-end option 253, padding, unknown options, hop-by-hop extension), sent from a 'previous hop' socket (on another address than the SCION source host) to the listener's service port or, for a quarter of the probes, to its end-host port 30041; lengths {0,1,47,48,49,52,75,76,77,100,1024,1300}. Same oracle on the unwrapped replies; in addition every reply must come from the listener's socket to the previous hop with ISD-AS, host and ports exchanged and a path whose type and bytes equal an independently computed reversal of the request's. Non-trivial / distinct as for c09/grid")
 
 var lengthsSCION = []int{0, 1, 47, 48, 49, 52, 75, 76, 77, 100, 1024, 1300}
 
